@@ -73,6 +73,17 @@ func (cl *Cluster) crash(who int, down time.Duration) {
 	if !n.alive || n.failed || n.frozen {
 		return
 	}
+	if cl.mode == ModeSigner && cl.fault.Bool(1, 3) {
+		// flavour (c): die at the next signing request, before it is served: the
+		// trigger has been logged to the WAL, the vote it causes has not been signed
+		cl.tracef("crash node%d armed: at its next signing request, down %v", who, down)
+		n.downFor = down
+		n.crashAtSign = true
+		n.doubleTap = cl.fault.Bool(2, 3)
+		n.afterOwnProposal = cl.fault.Bool(1, 2)
+		n.sawOwnProposal = false
+		return
+	}
 	if cl.fault.Bool(1, 2) {
 		k := 1 + cl.fault.Int(40)
 		cl.tracef("crash node%d armed: %d write boundaries from now, down %v", who, k, down)
@@ -164,10 +175,29 @@ func (cl *Cluster) restart(who int) {
 		return
 	}
 	n.incarn++
+	if n.walGone {
+		// second half of a double tap: the WAL did not survive
+		n.walGone = false
+		os.RemoveAll(filepath.Dir(n.walFile()))
+		cl.c.Fault("wal-lost")
+		cl.tracef("node%d: WAL lost (double tap)", n.idx)
+	} else if cl.cfg.WALDamage && !n.doubleTap && cl.fault.Bool(1, 2) {
+		cl.damageWAL(n)
+	}
 	cl.c.Fault("restart")
 	cl.tracef("restart node%d", who)
 	var err error
 	site, msg, panicked := kernelTry(func() { err = n.start() })
+	if !panicked && err == nil && n.doubleTap {
+		// double tap: the node dies again right after its WAL catch-up replay (which
+		// may have signed votes in replay mode), before anything newer is signed,
+		// and loses its WAL: only the signer's own record stands between it and a
+		// conflicting signature
+		n.doubleTap = false
+		n.walGone = true
+		cl.c.Fault("double-tap-after-replay")
+		cl.push(&event{at: cl.now + time.Millisecond, kind: evCrash, node: who, fn: func() { cl.crashNow(who, 200*time.Millisecond) }})
+	}
 	if panicked || err != nil {
 		// whether a node can restart from any durable image is C13's subject;
 		// here the node simply stays down
@@ -229,4 +259,40 @@ func HostileHang(stacks string) *kernel.Violation {
 	sort.Strings(sites)
 	return &kernel.Violation{Class: "halted", Key: "C16/halted/lock-never-released/" + sites[0],
 		Message: fmt.Sprintf("after hostile peer traffic %d goroutine(s) of the node wait forever for a mutex nobody will release (first: %s): the consensus routine is halted", len(sites), sites[0])}
+}
+
+// freezeNow takes the durable image of node n at this very instant (called on
+// the node's own goroutine, e.g. from the signer wrapper): the node is a
+// zombie from here on and is torn down when the event has settled.
+func (n *Node) freezeNow() {
+	if n.frozen {
+		return
+	}
+	snapDir := n.dir + ".crash"
+	os.RemoveAll(snapDir)
+	copyDir(n.dir, snapDir)
+	n.disk.Frozen = n.disk.Snapshot()
+	n.frozen = true
+}
+
+// damageWAL models a consensus WAL that did not survive the crash intact: the
+// newest file is cut at a tape-chosen offset, or the whole WAL is gone. What
+// the validator key may sign afterwards is FilePV's business alone.
+func (cl *Cluster) damageWAL(n *Node) {
+	dir := filepath.Dir(n.walFile())
+	switch cl.fault.Int(3) {
+	case 0:
+		os.RemoveAll(dir)
+		cl.c.Fault("wal-lost")
+		cl.tracef("node%d: WAL lost", n.idx)
+	default:
+		b, err := os.ReadFile(n.walFile())
+		if err != nil || len(b) == 0 {
+			return
+		}
+		cut := cl.fault.Int(len(b))
+		os.WriteFile(n.walFile(), b[:cut], 0600)
+		cl.c.Fault("wal-truncated")
+		cl.tracef("node%d: WAL head cut at %d of %d", n.idx, cut, len(b))
+	}
 }
